@@ -228,6 +228,32 @@ def _linear(ctx, desc):
                 return
         except Exception as e:  # noqa: BLE001
             return ctx.violation(ctx.exc_signature(e, f"helpers.{kind}"), f"{type(e).__name__}: {str(e)[:140]}", desc)
+    if desc["seed"] % 2 == 0:
+        # the same connection at another batch size (the documented batchsz setter): the advertised batched shapes follow, and
+        # the map is the same map of the new batch (an undelayed delta synapse carries nothing over)
+        B2 = B + 1 if desc["seed"] % 4 == 0 else max(B - 1, 1) if B > 1 else 3
+        ctx.count("linear_forwards_at_a_reassigned_batch_size")
+        try:
+            before = (tuple(conn.batched_inshape), tuple(conn.batched_outshape))
+            conn.batchsz = B2
+            adv = (tuple(conn.batched_inshape), tuple(conn.batched_outshape))
+            x2 = torch.randn((B2,) + ish, generator=g, dtype=torch.float64)
+            for _ in range((K or 0) + 1):
+                out2 = _drive(conn, x2)
+        except Exception as e:  # noqa: BLE001
+            return ctx.violation(ctx.exc_signature(e, f"rebatched.{kind}"), f"{type(e).__name__}: {str(e)[:140]}", desc)
+        if before != ((B,) + ish, (B,) + osh) or adv != ((B2,) + ish, (B2,) + osh):
+            return ctx.violation(f"{kind}.advertised_batched_shape", f"batched shapes {before} at batch size {B}, {adv} after batchsz = {B2}", desc)
+        W, b = conn.weight.detach(), (conn.bias.detach() if desc["bias"] else None)
+        xf = x2.reshape(B2, nin)
+        if kind == "dense":
+            ref = F.linear(xf, W, b)
+        elif kind == "direct":
+            ref = xf * W + (b if b is not None else 0)
+        else:
+            ref = xf @ (W * (1 - torch.eye(nin, dtype=torch.float64))).t() + (b if b is not None else 0)
+        if tuple(out2.shape) != (B2,) + osh or not torch.allclose(out2.reshape(B2, nout), ref, rtol=1e-9, atol=1e-9):
+            return ctx.violation(f"{kind}.linear_map_after_batchsz_assignment", f"output {tuple(out2.shape)} after batchsz = {B2} differs from the documented map", desc)
 
 
 def _conv(ctx, desc):
